@@ -48,7 +48,7 @@ class Job:
 
     def __init__(self, target, variant, mode="random", workers=16, cases=1000, maxtime=60.0,
                  enum_stride=1, sources=None, refs=(), link_extra=(), extra_defs=(), csources=(),
-                 fuzz_time=0, fuzz_jobs=0, case_timeout=120, name=None, extra_args=(), seed_salt=0):
+                 fuzz_time=0, fuzz_jobs=0, case_timeout=120, name=None, extra_args=(), seed_salt=0, fastsources=()):
         self.target = target
         self.variant = variant
         self.mode = mode
@@ -67,11 +67,12 @@ class Job:
         self.name = name or "%s.%s.%s" % (target, variant, mode)
         self.extra_args = tuple(extra_args)
         self.seed_salt = seed_salt
+        self.fastsources = tuple(fastsources)
 
     def binary(self, quiet=False):
         return build.build_target(self.target, self.variant, self.sources, refs=self.refs,
                                   link_extra=self.link_extra, extra_defs=self.extra_defs,
-                                  csources=self.csources, fuzzer=(self.mode == "fuzz"), quiet=quiet)
+                                  csources=self.csources, fuzzer=(self.mode == "fuzz"), quiet=quiet, fastsources=self.fastsources)
 
 
 def read_status(path):
